@@ -34,7 +34,15 @@ structure Pending where
   lastFragmentId : Nat
   /-- fragment ids acknowledged so far (the `ack_flags` bit set) -/
   acked : List Nat
+  /-- `expiry_flush_id`: the flush a TimeSensitive packet was queued for -/
+  expiry : Option Nat := none
   deriving Repr, DecidableEq, Inhabited
+
+/-- `PendingPacket::expired(flush_id)`. -/
+def Pending.expired (p : Pending) (flushId : Nat) : Bool :=
+  match p.expiry with
+  | some f => f != flushId
+  | none => false
 
 /-- `PendingPacket::datagram(fragment_id)`; slicing out of range is a Rust panic. -/
 def Pending.datagram (p : Pending) (fid : Nat) : R Datagram :=
@@ -124,7 +132,8 @@ def emit (s : State) (flushId : Nat) : R (State × Option (Pending × Bool)) :=
           | none => 0
         let p : Pending := { uid := s.nextUid, data := q.data, channelId := q.channelId, sequenceId := seq,
                              windowParentLead := wpl, channelParentLead := cpl,
-                             lastFragmentId := (numFragments q.data.length - 1) % 2^16, acked := [] }
+                             lastFragmentId := (numFragments q.data.length - 1) % 2^16, acked := [],
+                             expiry := if q.mode = .timeSensitive then some q.flushId else none }
         let rel := q.mode = .reliable
         let s' : State := { s with
           queue := rest,
